@@ -54,6 +54,7 @@ def obs_addr(a):
                  "__repr__", "__getstate__", "__bytes__"):
         o[name] = _safe(lambda n=name: _r(getattr(a, n)()))
     o["eq_fresh"] = _safe(lambda: a == netaddr.IPAddress(a._value, a.version))
+    o["info"] = _safe(lambda: repr(a.info))          # IANA registry lookup (C19)
     o["format_verbose"] = _safe(lambda: a.format(netaddr.ipv6_verbose) if a.version == 6 else None)
     return o
 
